@@ -46,6 +46,13 @@ def run_groups(names, tier, known_by_group=None, log=None, cache=True):
         j = by_name[r['name']]
         o = out[j['group']]
         subs = j.get('subgoals') or [j['name']]
+        if j.get('kind') == 'canary':
+            cls = subs[0].split('#')[0]
+            o.setdefault('canaries', {}).setdefault(cls, [0, 0])
+            o['canaries'][cls][0] += 1
+            if r['result'] != 'unsat':
+                o['canaries'][cls][1] += 1          # reachable: False is not provable here
+            continue
         o['jobs'] += 1
         o['obligations'] += len(subs)
         o['solver_time'] += r.get('time', 0.0)
